@@ -149,6 +149,34 @@ Definition example_v2 : v2root :=
                                                             with_mockname empty_cfg (B "B")] |});
                                    (B "J", {| i_config := None; i_configs := [] |}) ] |}) ] |}.
 
+(* ---- the file as it is read back; known finding C19-merge-key ----
+   Full statement wanted: for every r with migrate r = MOk out, reading the written file gives
+   [out] again (so that every theorem above speaks about the file).  The faithful model of the
+   encoder/reader pair refutes it: yaml.v3 writes the mapping key `<<` unquoted and every reader
+   takes it for a merge key.  Proved under the guard [v2_merge_free] (no package name, interface
+   name or key inside an `_anchors` value is the string `<<`). *)
+Theorem C19_file_roundtrip : forall r out,
+  v2_merge_free r = true -> migrate r = MOk out -> reread out = Some out.
+Proof. exact file_roundtrip. Qed.
+Print Assumptions C19_file_roundtrip.
+
+Definition merge_witness : v2root :=
+  {| r_top := empty_cfg;
+     r_pkgs := [ (B "p", {| p_config := None;
+                            p_ifaces := [ (B "<<", {| i_config := None; i_configs := [] |}) ] |}) ] |}.
+
+(* an interface named `<<` is in the tree handed to the encoder but not in the file as read back *)
+Theorem C19_names_preserved_refuted : exists r out out',
+  migrate r = MOk out /\ v2_merge_free r = false /\ reread out = Some out' /\
+  ykeys (ysub [SK kpackages; SK (B "p"); SK kinterfaces] out) = [B "<<"] /\
+  ykeys (ysub [SK kpackages; SK (B "p"); SK kinterfaces] out') = [].
+Proof.
+  exists merge_witness. eexists. eexists.
+  split; [vm_compute; reflexivity|]. split; [vm_compute; reflexivity|].
+  split; [vm_compute; reflexivity|]. split; vm_compute; reflexivity.
+Qed.
+Print Assumptions C19_names_preserved_refuted.
+
 Example C19_example :
   migrate example_v2 = MOk (YMap
     [ (B "all", YBool true);
@@ -173,4 +201,8 @@ Proof. vm_compute. reflexivity. Qed.
    makes the loader panic, so C19_loader_accepts would be false; with the non-nil default it loads. *)
 Example C19_nil_anchors_default_would_panic :
   load_with true (mig_root example_v2) = LoadPanic /\ load (mig_root example_v2) = LoadOk.
+Proof. vm_compute. split; reflexivity. Qed.
+
+(* the guard is satisfiable by a non-trivial tree *)
+Example C19_guard_satisfiable : v2_merge_free example_v2 = true /\ wf_root example_v2 = true.
 Proof. vm_compute. split; reflexivity. Qed.
